@@ -2,15 +2,26 @@
    (Gen/ImportRules.v) must be the one the model and its theorems were written for. The lemma is
    closed by `reflexivity`; it stops checking as soon as the claim moves behind the read, the
    flatten loop changes direction, the depth comparison changes, the mutex no longer covers the
-   lookup-and-insert, the join loses its error, or fileNameToIndex gains / loses a step. *)
-From Coq Require Import List NArith Arith Bool.
+   lookup-and-insert, the join loses its error, or fileNameToIndex gains / loses a step.
+   Below it the theorems of CollectProps / FlattenProps / TermProps / IndexProps are restated for the
+   model instantiated with the regenerated table, with non-vacuity examples for their hypotheses. *)
+From Coq Require Import String List NArith Arith Bool.
 Import ListNotations.
-Require Import Verif.Imports.Rules Verif.Imports.Collect Verif.Imports.CollectProps Verif.Gen.ImportRules.
+Require Import Verif.Imports.Rules Verif.Imports.Collect Verif.Imports.CollectProps Verif.Imports.FlattenProps
+               Verif.Imports.TermProps Verif.Imports.Index Verif.Imports.IndexProps Verif.Gen.ImportRules.
 
 Lemma rules_current : current_rules = expected_rules.
 Proof. reflexivity. Qed.
 
-(* the theorems, restated for the model instantiated with the regenerated table *)
+Definition final_cur g root maxd sched := snd (result current_rules g maxd root sched).
+Definition got_cur g root maxd sched f := lookup f (claimed (run current_rules g maxd root sched)) <> None.
+
+(* cycles end: on a finite import graph every long enough schedule ends with no goroutine left *)
+Theorem collect_terminates_current g root maxd univ sched :
+  In root univ -> (forall f k, In f univ -> In k (g f) -> In k univ) ->
+  step_bound g univ <= length sched -> quiescent (run current_rules g maxd root sched) = true.
+Proof. rewrite rules_current. intros Hr Hc. exact (collect_terminates g root maxd univ Hr Hc sched). Qed.
+
 Theorem closure_unlimited_current g root sched : let s := run current_rules g 0 root sched in
   quiescent s = true ->
   forall f, (reach g root f <-> exists e, lookup f (claimed s) = Some e /\ eimports e = Some (g f)).
@@ -20,3 +31,72 @@ Theorem claim_once_current g root maxd sched : let s := run current_rules g maxd
   quiescent s = true ->
   NoDup (reads s) /\ forall f, In f (reads s) <-> lookup f (claimed s) <> None.
 Proof. rewrite rules_current. exact (claim_once g root maxd sched). Qed.
+
+Theorem closure_unlimited_result_current g root sched : quiescent (run current_rules g 0 root sched) = true ->
+  exists l, final_cur g root 0 sched = Some l /\ NoDup l /\ (forall f, In f l <-> reach g root f) /\
+    (exists fuel, dfs fuel g (fun _ => true) [] root = Some l) /\
+    (forall fuel l', dfs fuel g (fun _ => true) [] root = Some l' -> l' = l).
+Proof. unfold final_cur. rewrite rules_current. exact (closure_unlimited_result g root sched). Qed.
+
+Theorem closure_unlimited_independent_current g root s1 s2 :
+  quiescent (run current_rules g 0 root s1) = true -> quiescent (run current_rules g 0 root s2) = true ->
+  final_cur g root 0 s1 = final_cur g root 0 s2.
+Proof. unfold final_cur. rewrite rules_current. exact (closure_unlimited_independent g root s1 s2). Qed.
+
+Theorem closure_depth_unique_result_current g root maxd sched :
+  quiescent (run current_rules g maxd root sched) = true -> 0 < maxd ->
+  (forall f d d', walk g root f d -> walk g root f d' -> d = d') ->
+  exists l, final_cur g root maxd sched = Some l /\ NoDup l /\ forall f, In f l <-> nearer g root maxd f.
+Proof. unfold final_cur. rewrite rules_current. exact (closure_depth_unique_result g root maxd sched). Qed.
+
+Theorem closure_depth_unique_independent_current g root maxd s1 s2 :
+  quiescent (run current_rules g maxd root s1) = true -> quiescent (run current_rules g maxd root s2) = true -> 0 < maxd ->
+  (forall f d d', walk g root f d -> walk g root f d' -> d = d') ->
+  final_cur g root maxd s1 = final_cur g root maxd s2.
+Proof. unfold final_cur. rewrite rules_current. exact (closure_depth_unique_independent g root maxd s1 s2). Qed.
+
+Theorem closure_depth_partial_current g root maxd sched :
+  quiescent (run current_rules g maxd root sched) = true -> 0 < maxd ->
+  exists l, final_cur g root maxd sched = Some l /\ NoDup l /\
+    (forall f, In f l -> nearer g root maxd f) /\
+    (forall f d, walk g root f d -> d < maxd -> (forall d', walk g root f d' -> d' = d) -> In f l) /\
+    (forall f k, In f l -> In k (g f) -> got_cur g root maxd sched k -> In k l).
+Proof. unfold final_cur, got_cur. rewrite rules_current. exact (closure_depth_partial_result g root maxd sched). Qed.
+
+Theorem closure_depth_refuted_current :
+  exists g maxd root s1 s2,
+    quiescent (run current_rules g maxd root s1) = true /\ quiescent (run current_rules g maxd root s2) = true /\
+    final_cur g root maxd s1 = Some [0;1;4;5;2;3]%N /\
+    final_cur g root maxd s2 = Some [0;1;4;2;3]%N.
+Proof. unfold final_cur. rewrite rules_current. exact closure_depth_refuted. Qed.
+
+Theorem index_canonical_current :
+  (forall s s', slash_eq s s' -> index_of current_rules s = index_of current_rules s') /\
+  (forall name v, has at_sign name = false -> index_of current_rules (name ++ String at_sign v) = index_of current_rules name) /\
+  (forall s s', has backslash s = false -> has at_sign s = false -> has backslash s' = false -> has at_sign s' = false ->
+      index_of current_rules s = index_of current_rules s' -> s = s') /\
+  (forall s, index_of current_rules (index_of current_rules s) = index_of current_rules s).
+Proof.
+  rewrite rules_current. split; [exact index_slash_direction|]. split; [exact index_version|].
+  split; [exact index_distinguishes|exact index_idempotent].
+Qed.
+
+(* ---------------- non-vacuity of the hypotheses ---------------- *)
+(* a cyclic graph with a diamond and a self-import: 0->1,2,0 ; 1->3,1 ; 2->3,0 ; 3->1,3 *)
+Definition g_cyc : graph := graph_of [(0,[1;2;0]); (1,[3;1]); (2,[3;0]); (3,[1;3])]%N.
+Example terminates_nonvacuous :
+  In 0%N [0;1;2;3]%N /\ (forall f k, In f [0;1;2;3]%N -> In k (g_cyc f) -> In k [0;1;2;3]%N) /\
+  step_bound g_cyc [0;1;2;3]%N = 18 /\
+  result expected_rules g_cyc 0 0%N (repeat 0 18) = (true, Some [0;1;3;2]%N) /\
+  result expected_rules g_cyc 0 0%N (repeat 5 18) = (true, Some [0;1;3;2]%N).
+Proof.
+  split; [left; reflexivity|]. split; [|vm_compute; repeat split].
+  intros f k Hf Hk. cbn in Hf. destruct Hf as [<-|[<-|[<-|[<-|[]]]]]; vm_compute in Hk; cbn; tauto.
+Qed.
+
+(* a tree (every file at one depth) under a limit that cuts: 0->1,2 ; 1->3 ; 3->4, limit 3 *)
+Definition g_tree : graph := graph_of [(0,[1;2]); (1,[3]); (2,[]); (3,[4]); (4,[])]%N.
+Example depth_unique_nonvacuous :
+  result expected_rules g_tree 3 0%N (repeat 0 20) = (true, Some [0;1;3;2]%N) /\
+  result expected_rules g_tree 3 0%N ([0;0;1;1] ++ repeat 0 20) = (true, Some [0;1;3;2]%N).
+Proof. vm_compute. split; reflexivity. Qed.
